@@ -409,3 +409,52 @@ example : RuleValid 24 u4Ti (some 3) arrPs := ⟨by simp [arrPs], by simp [u4Ti,
 example : firstError 24 u4Ti (some 5) arrPs ≠ none := by decide
 
 end Bb.C09
+
+namespace Bb.C09
+open Bb
+
+theorem parseFields_ok (resolve : List String → Nat) (B : Base) : ∀ (fs : List FieldSyn) (fds : List FieldDef),
+    parseFields resolve B fs = .ok fds → ∀ fd ∈ fds, FieldOk B fd := by
+  intro fs
+  induction fs with
+  | nil => intro fds h fd hfd; simp [parseFields] at h; subst h; cases hfd
+  | cons f fs ih =>
+    intro fds h fd hfd
+    simp only [parseFields, bind, Except.bind] at h
+    cases hf : parseField resolve B.exposed f with
+    | error e => rw [hf] at h; cases h
+    | ok d =>
+      rw [hf] at h
+      simp only at h
+      cases hrest : parseFields resolve B fs with
+      | error e => rw [hrest] at h; cases h
+      | ok ds =>
+        rw [hrest] at h
+        simp only [Except.ok.injEq] at h
+        subst h
+        rcases List.mem_cons.mp hfd with rfl | h'
+        · exact parseField_ok resolve B f _ hf
+        · exact ih ds hrest fd h'
+
+/-- **declaration level.** Whenever the macro (model: `expand`) produces an expansion, the base is one of
+    `u8 … u128` / `u1 … u127` and *every* field of the program satisfies `FieldOk` – so the accessor theorems
+    C01–C05, C08, C11–C13, C16 apply to every accessor of every accepted declaration. -/
+theorem expand_fields_ok (resolve : List String → Nat) (types : Nat → Option CustomInfo) (d : DeclSyn) (p : Program)
+    (h : expand resolve types d = .ok p) : p.base.WF ∧ ∀ fd ∈ p.fields, FieldOk p.base fd := by
+  unfold expand at h
+  simp only [bind, Except.bind, pure, Except.pure] at h
+  cases hb : baseOf d.baseIdent with
+  | none => simp [hb] at h
+  | some B =>
+    simp only [hb] at h
+    have hB := base_supported d.baseIdent B hb
+    split at h
+    · cases h
+    · cases hfs : parseFields resolve B d.fields with
+      | error e => simp [hfs] at h
+      | ok fds =>
+        simp only [hfs] at h
+        have hall := parseFields_ok resolve B d.fields fds hfs
+        (repeat' split at h) <;> (try (cases h)) <;> exact ⟨hB, hall⟩
+
+end Bb.C09
